@@ -2,11 +2,13 @@
 against reference snippets written from the docstrings / cited papers)."""
 from __future__ import annotations
 
+import ast
+
 from ..core import Report
 from ..eqterms import Inconclusive, equal, explain
 from ..model import Program
 from ..refs import FORMULAS, eval_ref_method
-from ..terms import C, Interp, find_unknown, has_unknown, is_const, key, mk_add, same, show, subst, walk
+from ..terms import C, Interp, find_unknown, has_unknown, is_const, key, mk_add, mk_neg, same, show, subst, walk
 from .bij import COND, SELF, X, method_site, method_term
 from .spline import SPLINE, rule_bin, spline_method_term, table_subscripts
 
@@ -38,6 +40,10 @@ def compare(rep, rule, site, k, got, want, what, alternatives=()):
             except Inconclusive:
                 pass
     got, want = strip_error_if(got), strip_error_if(want)
+    if got[0] == "unknown" and isinstance(got[1], str) and got[1].endswith("not assigned") and not has_unknown(want):
+        # the reference gives the field a value, the code never assigns it
+        rep.violated(rule, site, k, f"{what} is never assigned (documented: {show(want, 120)})")
+        return False
     if has_unknown(got) or has_unknown(want):
         rep.undecided(rule, site, k, f"unmodelled: {find_unknown(got) or find_unknown(want)}")
         return False
@@ -319,11 +325,105 @@ SPLINE_REFS = {
 }
 
 
+def rule_spline_init(prog, rep, R):
+    """The spline is the identity at initialisation: equal knot tables (same parameterisation of the same raw
+    values), every derivative exactly 1 (softplus(log(exp(1-m) - 1)) + m == 1), and eq. 4 with x_pos == y_pos and
+    derivatives == 1 reduces to x (exact rational identity)."""
+    from ..eqterms import rat_equal
+    c = prog.cls(SPLINE)
+    site = method_site(prog, c, "__init__")
+    K, I, M, A = ("sym", "KNOTS"), ("sym", "INTERVAL"), ("sym", "MIN_D"), ("sym", "ADJ")
+    f = Interp(prog).eval_init(c, [], {"knots": K, "interval": I, "min_derivative": M, "softmax_adjust": A})
+    xp, yp, dv = f.get("x_pos"), f.get("y_pos"), f.get("derivatives")
+    ok_knots = xp is not None and yp is not None and same(xp, yp) and xp[0] == "call" and \
+        xp[1] == ("ext", "flowjax.wrappers.Lambda")
+    if not ok_knots and xp is not None and yp is not None and xp[0] == yp[0] == "call" and xp[1] == yp[1] == \
+            ("ext", "flowjax.wrappers.Lambda") and len(xp[2]) == len(yp[2]) == 2 and same(xp[2][0], yp[2][0]):
+        # the parameterisation starts with a softmax: any two constant raw vectors of the same length give the same knots
+        def const_fill(t2):
+            if t2[0] == "call" and t2[1] in (("ext", "jax.numpy.zeros"), ("ext", "jax.numpy.ones")):
+                return dict(t2[3]).get("shape")
+            if t2[0] == "call" and t2[1] == ("ext", "jax.numpy.full") and is_const(dict(t2[3]).get("fill_value", ("x",))):
+                return dict(t2[3]).get("shape")
+            return None
+        sx, sy = const_fill(xp[2][1]), const_fill(yp[2][1])
+        m0, fn0 = prog.func(SPLINE.rsplit(".", 1)[0] + "._real_to_increasing_on_interval")
+        starts_with_softmax = any(isinstance(n, ast.Call) and ast.unparse(n.func).endswith("softmax") for n in ast.walk(fn0))
+        ok_knots = sx is not None and sy is not None and same(sx, sy) and starts_with_softmax
+    rep.check(ok_knots, R, site, "RationalQuadraticSpline.__init__:x_pos==y_pos-at-init",
+              "both knot tables are the same parameterisation of the same raw values",
+              f"x_pos = {show(xp, 120) if xp else None} but y_pos = {show(yp, 120) if yp else None}: the spline is not the "
+              f"identity at initialisation")
+    want_iv = ("ite", ("call", ("ext", "builtins.isinstance"), (I, ("ext", "builtins.tuple")), ()), I, ("tuple", (mk_neg(I), I)))
+    rep.check(equal(f.get("interval", ("unknown", "unset")), want_iv), R, site,
+              "RationalQuadraticSpline.__init__:interval", "interval = given tuple, or (-B, B) for a scalar B",
+              f"interval is stored as {show(f.get('interval'), 160) if f.get('interval') else None}")
+    ok_d = False
+    detail = show(dv, 200) if dv else None
+    if dv is not None and dv[0] == "call" and dv[1] == ("ext", "flowjax.wrappers.Lambda") and len(dv[2]) == 2 \
+            and dv[2][0][0] == "lam" and dv[2][1][0] == "call" and dv[2][1][1] == ("ext", "jax.numpy.full"):
+        lam, full = dv[2]
+        raw = dict(full[3]).get("fill_value")
+        lvl = lam[3] if len(lam) > 3 else 0
+        val = subst(lam[2], lambda s2: raw if s2 == ("bv", lvl, 0) else None)
+
+        # softplus(log(exp(a) - 1)) == a   (log(1 + exp(log(e^a - 1))) = log(e^a))
+        def sp(s2):
+            if s2[0] == "call" and s2[1] == ("ext", "jax.nn.softplus"):
+                a0 = dict(s2[3]).get("x")
+                if a0 is not None and a0[0] == "call" and a0[1] == ("ext", "jax.numpy.log"):
+                    inner = dict(a0[3]).get("a")
+                    if inner is not None and inner[0] == "add" and len(inner[1]) == 2 and C(-1) in inner[1]:
+                        e = [x for x in inner[1] if x != C(-1)][0]
+                        if e[0] == "call" and e[1] == ("ext", "jax.numpy.exp"):
+                            return dict(e[3]).get("a")
+            return None
+        val2 = subst(val, sp)
+        try:
+            ok_d = rat_equal(val2, C(1))
+        except Exception:
+            ok_d = False
+        detail = f"derivative at initialisation is {show(val2, 160)}"
+        shape_ok = same(dict(full[3]).get("shape", C(None)), mk_add((K, C(2))))
+        ok_d = ok_d and shape_ok
+    rep.check(ok_d, R, site, "RationalQuadraticSpline.__init__:derivatives==1-at-init",
+              "softplus(log(exp(1 - m) - 1)) + m == 1 for all knots + 2 derivatives",
+              f"{detail}: the initial derivatives are not exactly 1, so the spline is not the identity at initialisation")
+    # eq. 4 with equal tables and unit derivatives is the identity
+    t = spline_method_term(prog, "transform")
+    wp = where_parts(t)
+    ab = abstract_spline(wp[1]) if wp else None
+    if ab is None:
+        rep.undecided(R, site, "RationalQuadraticSpline:identity-at-init", "in-bounds formula not recognised")
+        return
+    body = ab[0]
+    if body[0] == "call" and body[1] == ("ext", "jax.numpy.clip"):
+        body = dict(body[3]).get("a")
+    XP = ("attr", SELF, "x_pos")
+
+    def unit(s2):
+        if s2 == ("attr", SELF, "y_pos"):
+            return XP
+        if s2[0] == "sub" and s2[1] == ("attr", SELF, "derivatives"):
+            return C(1)
+        return None
+    ident = subst(body, unit)
+    try:
+        ok_i = rat_equal(ident, ("sym", "XR"))
+    except Exception as e:
+        rep.undecided(R, site, "RationalQuadraticSpline:identity-at-init", f"not decided: {e}")
+        return
+    rep.check(ok_i, R, site, "RationalQuadraticSpline:identity-at-init",
+              "eq. 4 with y_pos == x_pos and derivatives == 1 reduces to x",
+              f"with equal knot tables and unit derivatives the in-bounds formula is {show(ident, 200)}, not x")
+
+
 def rule_spline(prog, rep, R="C07.spline"):
     rep.rule(R, "RationalQuadraticSpline: in-bounds branch equals eq. 4 (transform), eq. 5 (derivative), "
                            "eq. 6-8 (inverse) of Durkan et al. on the bin located in the right knot table; the "
                            "out-of-bounds branch is the identity (derivative 1); the result is selected by the same "
-                           "interval mask that restricts the input", minimum=12)
+                           "interval mask that restricts the input; at initialisation the spline is the identity (equal knot "
+                           "tables, unit derivatives, eq. 4 reduces to x)", minimum=16)
     c = prog.cls(SPLINE)
     for name, (table_name, src) in SPLINE_REFS.items():
         t = spline_method_term(prog, name)
@@ -383,6 +483,7 @@ def rule_spline(prog, rep, R="C07.spline"):
             body = kw.get("a")
         want = eval_ref_method(prog, c, src, [("sym", "XR"), ("sym", "K")])
         compare(rep, R, site, k + ":formula", body, want, f"in-bounds {name}")
+    rule_spline_init(prog, rep, R)
     # mask is the closed interval test on the input
     t = spline_method_term(prog, "transform")
     wp = where_parts(t)
